@@ -291,7 +291,7 @@ fn finish_callback(act: Act) -> Result<(), InterpolateError> {
 
 /// re-entrancy: issue `call` on the interpolator whose callback is running, with a context of its
 /// own, and record the outcome in the log of the outer operation
-fn do_nest(at: u32, call: &Call) {
+fn do_nest(at: u32, call: &Call, plan: &[Act]) {
     if NO_NEST.load(std::sync::atomic::Ordering::Relaxed) {
         return;
     }
@@ -304,7 +304,7 @@ fn do_nest(at: u32, call: &Call) {
     };
     let q = crate::slots::query_of(call);
     let n = q.len();
-    let prev = install_ctx(Some(OpCtx { query: q, plan: vec![], yield_mask: mask, check_acc: acc, log: StubLog::default(), foreign_taken: vec![false; n] }));
+    let prev = install_ctx(Some(OpCtx { query: q, plan: plan.to_vec(), yield_mask: mask, check_acc: acc, log: StubLog::default(), foreign_taken: vec![false; n] }));
     // Safety: see `slots::exec` - the slot outlives the operation whose callback we are in.
     // `Slot::call` catches unwinds itself.
     let mut out = unsafe { (*slot).call(call) };
@@ -313,7 +313,7 @@ fn do_nest(at: u32, call: &Call) {
     }
     let mut g = outer.lock().unwrap_or_else(|p| p.into_inner());
     if g.log.nested.len() < 16 {
-        g.log.nested.push(Nested { at, call: call.clone(), out });
+        g.log.nested.push(Nested { at, call: call.clone(), plan: plan.to_vec(), out });
     }
 }
 
@@ -417,14 +417,14 @@ where
         // evaluation that meets a gap): on a planned error or panic the first half of the lanes is
         // written before failing
         let n_write = if matches!(act, Act::Ok | Act::Nest { .. }) { usize::MAX } else { (target.len() + 1) / 2 };
-        if let (Act::Nest { call: nc, write_first: false }, true) = (&act, call != FOREIGN_CALL) {
-            do_nest(call, nc);
+        if let (Act::Nest { call: nc, write_first: false, plan: np }, true) = (&act, call != FOREIGN_CALL) {
+            do_nest(call, nc, np);
         }
         for (lane, t) in target.iter_mut().enumerate().take(n_write) {
             *t = enc(xb, 0, lane, call);
         }
-        if let (Act::Nest { call: nc, write_first: true }, true) = (&act, call != FOREIGN_CALL) {
-            do_nest(call, nc);
+        if let (Act::Nest { call: nc, write_first: true, plan: np }, true) = (&act, call != FOREIGN_CALL) {
+            do_nest(call, nc, np);
         }
         finish_callback(act)
     }
@@ -533,14 +533,14 @@ where
             }
         }
         let n_write = if matches!(act, Act::Ok | Act::Nest { .. }) { usize::MAX } else { (target.len() + 1) / 2 };
-        if let (Act::Nest { call: nc, write_first: false }, true) = (&act, call != FOREIGN_CALL) {
-            do_nest(call, nc);
+        if let (Act::Nest { call: nc, write_first: false, plan: np }, true) = (&act, call != FOREIGN_CALL) {
+            do_nest(call, nc, np);
         }
         for (lane, t) in target.iter_mut().enumerate().take(n_write) {
             *t = enc(xb, yb, lane, call);
         }
-        if let (Act::Nest { call: nc, write_first: true }, true) = (&act, call != FOREIGN_CALL) {
-            do_nest(call, nc);
+        if let (Act::Nest { call: nc, write_first: true, plan: np }, true) = (&act, call != FOREIGN_CALL) {
+            do_nest(call, nc, np);
         }
         finish_callback(act)
     }
